@@ -297,6 +297,7 @@ class Value(cssutils.util._NewBase):
 
     def _setValue(self, value):
         # TODO: check!
+        self._checkReadonly()
         self._value = value
 
     value = property(
@@ -629,6 +630,7 @@ class URIValue(Value):
 
     def _setUri(self, uri):
         # TODO: check?
+        self._checkReadonly()
         self._value = uri
 
     uri = property(
